@@ -26,7 +26,7 @@ use solana_program::{
 };
 use std::collections::BTreeMap;
 
-const RULE: &str = "worlds sampled by proptest (token program, oracle kind, decimals, prices, fee settings, permissionless-bankruptcy flag per world; main group + mirrored foreign group on the same mints); per world the matrix is enumerated COMPLETELY: every non-venue instruction x account-state variant {normal, frozen, in receivership, disabled} x {every signer identity x signature bit set/cleared, every non-free slot x every applicable substitute}; expectation from the hand-written role table / slot-binding table; non-trivial = an asserted (must-fail) cell whose instruction's baseline call succeeded in that world";
+const RULE: &str = "worlds sampled by proptest (token program, oracle kind, decimals, prices, fee settings, permissionless-bankruptcy flag per world; main group + mirrored foreign group on the same mints); per world the matrix is enumerated COMPLETELY: every non-venue instruction x account-state variant {normal, frozen, in receivership, disabled, after an empty receivership bracket, after a used one} x {every signer identity x signature bit set/cleared, every non-free slot x every applicable substitute}; expectation from the hand-written role table / slot-binding table; non-trivial = an asserted (must-fail) cell whose instruction's baseline call succeeded in that world";
 
 // bank indices
 const B_COL: usize = 0; // collateral of A, fixed oracle
@@ -1259,6 +1259,35 @@ pub fn build_cases(e: &Env) -> Result<Vec<Case>, String> {
         let rem = obs(e, &base, &en.accounts[2..], "risk", Some(d), &[]);
         mk.add("lending_account_start_flashloan", "receivership", &base, vec![start.clone()], s.clone(), vec![en.clone(), end.clone()], false, Cx { u: U_D, ..cx0 }, vec![], e.auth(U_D), false);
         mk.add("lending_account_end_flashloan", "receivership", &base, vec![start.clone(), s], en, vec![end.clone()], false, Cx { u: U_D, ..cx0 }, rem, e.auth(U_D), false);
+    }
+    // ================= AFTER a receivership (empty bracket / used bracket, each closed in its own transaction) =================
+    // "strictly inside": once the bracket's transaction is over the account is its authority's alone again
+    {
+        let mut vm = base.clone();
+        // (the authority then tops its collateral up, so that its own borrow / withdraw baselines pass the health check)
+        let topup = m.ix_deposit(d, e.auth(U_D), B_COL, e.tok(&e.auth(U_D), B_COL), tokn(B_COL, 10_000), None);
+        if vm.exec_tx(&[start.clone(), end.clone()]).ok {
+            // signer identities right after the bracket (no baseline demanded: the account is still unhealthy) ...
+            user_cases(&mut mk, "after-empty-receivership", &vm, U_D, e.auth(U_D), B_DCOL, &[], &[], false, false, 5);
+            // ... and the full matrix once the authority has topped up
+            if vm.exec(&topup).is_ok() {
+                user_cases(&mut mk, "after-empty-receivership+topup", &vm, U_D, e.auth(U_D), B_DCOL, &[], &[], false, true, 7);
+            }
+        }
+        let repay_amt = (tokn(B_LIAB, 30) as u128 * e.p.price[B_DCOL] as u128 / e.p.price[B_LIAB] as u128) as u64;
+        let rp = m.ix_repay(d, rc, B_LIAB, e.tok(&rc, B_LIAB), repay_amt, None);
+        let mut pair = vec![AccountMeta::new_readonly(m.banks[B_DCOL].key, false)];
+        if m.banks[B_DCOL].oracle_kind != 0 {
+            pair.push(AccountMeta::new_readonly(m.banks[B_DCOL].oracle_key, false));
+        }
+        let wd = m.ix_withdraw_with(d, rc, B_DCOL, e.tok(&rc, B_DCOL), tokn(B_DCOL, 60), None, pair);
+        let mut vm = base.clone();
+        if vm.exec_tx(&[start.clone(), rp, wd, end.clone()]).ok {
+            user_cases(&mut mk, "after-used-receivership", &vm, U_D, e.auth(U_D), B_DCOL, &[], &[], false, false, 6);
+            if vm.exec(&topup).is_ok() {
+                user_cases(&mut mk, "after-used-receivership+topup", &vm, U_D, e.auth(U_D), B_DCOL, &[], &[], false, true, 8);
+            }
+        }
     }
     // the bracket instructions themselves
     {
